@@ -2,6 +2,7 @@ package checks
 
 import (
 	"fmt"
+	"math"
 
 	"verif/core"
 	"verif/model"
@@ -400,6 +401,7 @@ func init() {
 				{"nil map", nilMap, true}, {"empty map", map[string]any{}, true}, {"nil *struct", nilPtr, false}, {"&struct{}", &rowStruct{}, true}, {"struct{}", rowStruct{}, true},
 				{"uint8(0)", uint8(0), false}, {"int64(0)", int64(0), false}, {"float32(0)", float32(0), false}, {"uint(3)", uint(3), true}, {"float32(0.5)", float32(0.5), true},
 				{"*int -> 0", &zero, false}, {"*int -> 1", &one, true}, {"*string -> \"\"", &empty, false}, {"*string -> \" \"", &space, true}, {"*bool -> false", &f, false},
+				{"NaN", math.NaN(), true}, {"+Inf", math.Inf(1), true}, {"-Inf", math.Inf(-1), true}, {"-0.0", math.Copysign(0, -1), false}, {"5e-324", 5e-324, true}, {"float32 NaN", float32(math.NaN()), true},
 				{"[]*int{nil}", []*int{nil}, true}, {"[][]int{}", [][]int{}, true}, {"untyped nil", nil, false},
 			}
 			secs = append(secs, core.Section{Name: "native-conditions", Exhaustive: true, N: len(natives) * 4,
@@ -446,6 +448,14 @@ func init() {
 						model.Text{S: ">"}}
 					judgeProgram(c, prog, data, "quoted-cond", false)
 				}})
+			// (5d) conditions that read values other parts of the program also hold or produce: cells of arrays
+			// built by append/slice from one base, variables stepped by postfix operators inside a
+			// condition, objects whose keys differ only in the case of the first letter
+			shared := sharedValuePrograms()
+			secs = append(secs, core.Section{Name: "conditions-on-shared-values", Exhaustive: true, N: len(shared),
+				Run: func(c *core.Ctx, i int) {
+					judgeProgram(c, shared[i].prog, shared[i].data, "shared-value-cond", false)
+				}})
 			// (6) seeded random nestings
 			n, depth := 6000, 4
 			if tier == core.Thorough {
@@ -460,4 +470,98 @@ func init() {
 			return secs
 		},
 	})
+}
+
+type sharedCase struct {
+	prog []model.Stmt
+	data map[string]model.Value
+}
+
+func sharedValuePrograms() []sharedCase {
+	var out []sharedCase
+	lit := func(i int64) model.Expr { return model.Lit{V: model.Int(i)} }
+	v := func(n string) model.Expr { return model.Var{Name: n} }
+	call := func(x model.Expr, name string, args ...model.Expr) model.Expr {
+		return model.Call{X: x, Name: name, Args: args}
+	}
+	branch := func(cond model.Expr, tag string) model.Stmt {
+		return model.If{Conds: []model.Expr{cond}, Bodies: [][]model.Stmt{{model.Text{S: "[" + tag + ":T]"}}}, Else: []model.Stmt{model.Text{S: "[" + tag + ":F]"}}}
+	}
+	tern := func(cond model.Expr) model.Stmt {
+		return model.Print{E: model.Ternary{C: cond, A: model.Lit{V: model.Str("t")}, B: model.Lit{V: model.Str("f")}}}
+	}
+	// two appends on one base: each result keeps its own last cell
+	for L := 0; L <= 9; L++ {
+		var elems []model.Expr
+		var vals []model.Value
+		for k := 0; k < L; k++ {
+			elems = append(elems, lit(int64(k+1)))
+			vals = append(vals, model.Int(int64(k+1)))
+		}
+		at := lit(int64(L))
+		for form := 0; form < 2; form++ {
+			var baseInit model.Stmt = model.Assign{Name: "base", E: model.ArrLit{Elems: elems}}
+			data := map[string]model.Value{}
+			if form == 1 {
+				baseInit = model.Text{S: ""}
+				data["base"] = model.Arr(vals...)
+			}
+			out = append(out, sharedCase{[]model.Stmt{baseInit,
+				model.Assign{Name: "off", E: call(v("base"), "append", lit(0))}, model.Assign{Name: "on", E: call(v("base"), "append", lit(7))},
+				branch(model.Index{X: v("off"), I: at}, "off"), branch(model.Index{X: v("on"), I: at}, "on"), tern(model.Index{X: v("off"), I: at}),
+				model.Assign{Name: "p0", E: call(v("base"), "prepend", lit(0))}, model.Assign{Name: "p7", E: call(v("base"), "prepend", lit(7))},
+				branch(model.Index{X: v("p0"), I: lit(0)}, "p0"), branch(model.Index{X: v("p7"), I: lit(0)}, "p7"),
+				branch(model.Binary{Op: "==", L: call(v("base"), "len"), R: at}, "len")}, data})
+			if L >= 2 {
+				// an append on a slice view must not reach the cell behind the view
+				out = append(out, sharedCase{[]model.Stmt{baseInit,
+					model.Assign{Name: "head", E: call(call(v("base"), "slice", lit(0), lit(int64(L-1))), "append", lit(0))},
+					branch(model.Index{X: v("base"), I: lit(int64(L - 1))}, "behind"), branch(model.Index{X: v("head"), I: lit(int64(L - 1))}, "head"),
+					model.Each{Var: "k", Arr: intArr(1, 2), Body: []model.Stmt{model.Assign{Name: "tmp", E: call(call(v("base"), "slice", lit(1)), "append", lit(0))}, model.BreakIf{E: model.Unary{Op: "!", X: model.Index{X: v("base"), I: lit(int64(L - 1))}}}, model.Text{S: "."}}}}, data})
+			}
+		}
+	}
+	// a postfix operator inside a condition yields the stepped value and leaves the variable alone
+	for _, start := range []model.Value{model.Float(1.0), model.Float(2.5), model.Float(0.0), model.Int(1), model.Int(0), model.Int(2)} {
+		for _, op := range []string{"--", "++"} {
+			for form := 0; form < 2; form++ {
+				data := map[string]model.Value{}
+				var init model.Stmt = model.Assign{Name: "x", E: literalOf(start)}
+				if form == 1 {
+					init = model.Text{S: ""}
+					data["x"] = start
+				}
+				step := model.Postfix{Op: op, X: v("x")}
+				out = append(out, sharedCase{[]model.Stmt{init,
+					model.If{Conds: []model.Expr{step, v("x")}, Bodies: [][]model.Stmt{{model.Text{S: "A"}}, {model.Text{S: "B"}}}, Else: []model.Stmt{model.Text{S: ".C"}}},
+					model.Print{E: model.Ternary{C: step, A: model.Lit{V: model.Str("a")}, B: model.Ternary{C: v("x"), A: model.Lit{V: model.Str("b")}, B: model.Lit{V: model.Str("c")}}}},
+					model.Each{Var: "k", Arr: intArr(1, 2, 3), Body: []model.Stmt{model.Print{E: v("k")}, model.BreakIf{E: step}, model.Text{S: ","}}},
+					model.Each{Var: "k", Arr: intArr(1, 2, 3), Body: []model.Stmt{model.Print{E: v("k")}, model.ContinueIf{E: step}, model.Text{S: ";"}}},
+					model.Text{S: "|"}, model.Print{E: v("x")}}, data})
+			}
+		}
+	}
+	// keys that differ only in the case of the first letter: the condition reads the key it names
+	pairs := []struct {
+		lo, up model.Value
+	}{{model.Bool(false), model.Bool(true)}, {model.Bool(true), model.Bool(false)}, {model.Str(""), model.Str("x")}, {model.Int(5), model.Int(0)}, {model.Nil, model.Arr()}}
+	for _, pr := range pairs {
+		obj := model.Obj(map[string]model.Value{"active": pr.lo, "Active": pr.up, "count": pr.up, "Count": pr.lo})
+		for form := 0; form < 2; form++ {
+			data := map[string]model.Value{"flags": obj}
+			var init model.Stmt = model.Text{S: ""}
+			if form == 1 && pr.lo.K != model.KNil {
+				data = map[string]model.Value{}
+				init = model.Assign{Name: "flags", E: model.ObjLit{Keys: []string{"Active", "active", "count", "Count"}, Vals: []model.Expr{literalOf(pr.up), literalOf(pr.lo), literalOf(pr.up), literalOf(pr.lo)}}}
+			}
+			f := v("flags")
+			out = append(out, sharedCase{[]model.Stmt{init,
+				branch(model.Dot{X: f, Name: "active"}, "active"), branch(model.Dot{X: f, Name: "Active"}, "Active"),
+				branch(model.Index{X: f, I: model.Lit{V: model.Str("count")}}, "count"), branch(model.Index{X: f, I: model.Lit{V: model.Str("Count")}}, "Count"),
+				tern(model.Dot{X: f, Name: "count"}),
+				model.If{Conds: []model.Expr{model.Lit{V: model.Int(0)}, model.Dot{X: f, Name: "active"}}, Bodies: [][]model.Stmt{{model.Text{S: "never"}}, {model.Text{S: "[elseif:T]"}}}, Else: []model.Stmt{model.Text{S: "[elseif:F]"}}},
+				model.Each{Var: "k", Arr: intArr(1, 2), Body: []model.Stmt{model.Print{E: v("k")}, model.BreakIf{E: model.Dot{X: f, Name: "active"}}, model.ContinueIf{E: model.Dot{X: f, Name: "Count"}}, model.Text{S: ","}}}}, data})
+		}
+	}
+	return out
 }
